@@ -87,6 +87,8 @@ def _worker_init2(check_name, tier):
 
     warnings.simplefilter("ignore")
     sys.setrecursionlimit(10000)
+    if hasattr(sys, "set_int_max_str_digits"):
+        sys.set_int_max_str_digits(0)  # exact rationals of solver models can have thousands of digits
     try:
         from rdkit import RDLogger
 
